@@ -1,6 +1,6 @@
 """Shared engine for the Replication specification: model checking configurations, recorded walks of the
 real cluster (vh sim-walk) and their validation by TLC against specs/TraceReplication.tla."""
-import json, os, re, time
+import json, os, re, time, threading
 from concurrent.futures import ThreadPoolExecutor
 import vlib
 
@@ -15,9 +15,13 @@ TRACE_INVS = None
 def trace_cfg(n, k, invs=None):
     invs = invs or TRACE_INVS
     path = os.path.join(vlib.scratch(), "trace_%d_%d_%d.cfg" % (n, k, len(invs or INVS)))
-    with open(path, "w") as f:
-        f.write("SPECIFICATION TraceSpec\nCONSTANTS\n N = %d\n K = %d\n MaxTx = 3\n MaxKeysPerTx = 3\n MaxBatch = 3\n FixS12 = %s\n" % (n, k, "TRUE" if FIX_S12 else "FALSE"))
-        f.write("INVARIANTS " + " ".join(invs or INVS) + "\nPOSTCONDITION TraceAccepted\n")
+    # written once and atomically: walks are validated in parallel and share the file
+    if not os.path.exists(path):
+        tmp = "%s.%d.%d" % (path, os.getpid(), threading.get_ident())
+        with open(tmp, "w") as f:
+            f.write("SPECIFICATION TraceSpec\nCONSTANTS\n N = %d\n K = %d\n MaxTx = 3\n MaxKeysPerTx = 3\n MaxBatch = 3\n FixS12 = %s\n" % (n, k, "TRUE" if FIX_S12 else "FALSE"))
+            f.write("INVARIANTS " + " ".join(invs or INVS) + "\nPOSTCONDITION TraceAccepted\n")
+        os.replace(tmp, path)
     return path
 
 
